@@ -87,9 +87,9 @@ func c06Exec(nc *nats.Conn, prefix, op string) string {
 	var err error
 	switch p[0] {
 	case "np":
-		err = client.SendNodePoints(nc, c06ID(prefix, string(unhx(p[1]))), parseSpts(p[2]), true)
+		err = noteTmo(client.SendNodePoints(nc, c06ID(prefix, string(unhx(p[1]))), parseSpts(p[2]), true))
 	case "ep":
-		err = client.SendEdgePoints(nc, c06ID(prefix, string(unhx(p[1]))), c06ID(prefix, string(unhx(p[2]))), parseSpts(p[3]), true)
+		err = noteTmo(client.SendEdgePoints(nc, c06ID(prefix, string(unhx(p[1]))), c06ID(prefix, string(unhx(p[2]))), parseSpts(p[3]), true))
 	default:
 		panic("C06: bad op")
 	}
